@@ -22,7 +22,7 @@ SRC_CORE = os.path.join(REPO, "src", "onnx_ir", "_core.py")
 # graph = {"gid": int, "nodes": [node, ...]}
 # node  = {"id": int, "ins": [ref, ...], "nout": int, "attrs": [attr, ...]}
 # ref   = None | [producer id, output index]
-# attr  = ["g", graph] | ["gs", [graph, ...]] | ["i"] | ["ref"]
+# attr  = ["g", graph] | ["gs", [graph, ...]] | ["i"] | ["ref"] | ["refg"] (GRAPH-typed reference attribute)
 # kind "graph": units = [g]; Graph.sort() is called on the graph with id `target` (the root or a nested one)
 # kind "function": units = [g]; Function.sort() on a function whose body is g
 # kind "pass": units = [main, f1, ...]; TopologicalSortPass()(model)
@@ -198,6 +198,8 @@ def build(case: dict):
                     attrs.append(ir.AttrGraphs(f"a{k}", [mk_graph(s, depth + 1) for s in a[1]]))
                 elif a[0] == "i":
                     attrs.append(ir.AttrInt64(f"a{k}", 7))
+                elif a[0] == "refg":      # reference attribute of GRAPH type (only in the known-finding witness)
+                    attrs.append(ir.RefAttr(f"a{k}", "outer_g", ir.AttributeType.GRAPH))
                 else:
                     attrs.append(ir.RefAttr(f"a{k}", "outer", ir.AttributeType.INT))
             ins = [None if r is None else values[r[0]][r[1]] for r in n["ins"]]
@@ -439,7 +441,8 @@ def case_files(cases: list[tuple[dict, dict]], per_file: int = 250) -> list[tupl
                  + clist("\n  " + t for _, t in ones) + ".\n")
         text += ("Definition passes : list (list graph * (res bool * list (list (nat * list nat)))) :=\n "
                  + clist("\n  " + t for _, t in passes) + ".\n")
-        text += "Eval vm_compute in (failing agree1 ones ++ map (fun i => 100000 + i) (failing agreeP passes)).\n"
+        # two separate lists: never build a large unary number inside Coq
+        text += "Eval vm_compute in (failing agree1 ones).\nEval vm_compute in (failing agreeP passes).\n"
         files.append((f"cases_{start}", text, [i for i, _ in ones], [i for i, _ in passes]))
     return files
 
@@ -452,8 +455,11 @@ def correspondence(ck, cases: list[tuple[dict, dict]]) -> list[int]:
     for (tag, _, ones, passes), (rc, out) in zip(files, results):
         if rc != 0:
             raise RuntimeError(f"case file {tag} did not compile:\n{out[-3000:]}")
-        for j in common.parse_nat_list(out):
-            mism.append(passes[j - 100000] if j >= 100000 else ones[j])
+        parts = [p for p in out.split("     = ")[1:]]
+        if len(parts) != 2:
+            raise RuntimeError(f"case file {tag}: unexpected output:\n{out[-2000:]}")
+        mism += [ones[j] for j in common.parse_nat_list("= " + parts[0])]
+        mism += [passes[j] for j in common.parse_nat_list("= " + parts[1])]
     return sorted(mism)
 
 
@@ -540,7 +546,8 @@ def shrink(case: dict, fails) -> dict:
                         n["ins"].insert(i, old)
                 for i in range(len(n["attrs"]) - 1, -1, -1):
                     a = n["attrs"][i]
-                    if a[0] in ("i", "ref") or (a[0] == "gs" and not a[1]):
+                    if a[0] in ("i", "ref") or (a[0] == "gs" and not any(s["nodes"] for s in a[1])) \
+                            or (a[0] == "g" and not a[1]["nodes"]):
                         del n["attrs"][i]
                         if fails(cur):
                             changed = True
@@ -561,6 +568,17 @@ def check_case(case: dict) -> tuple[dict, list[str]]:
     if (obs2["outcome"], obs2["after"], obs2["modified"]) != (obs["outcome"], obs["after"], obs["modified"]):
         bad.append("result depends on object allocation order, not only on structure and previous order")
     return obs, bad
+
+
+def is_known(ck, case: dict, bad: list[str]) -> str | None:
+    """Map a failing case to a known finding by site: every failure is the TypeError raised for a
+    GRAPH-typed reference attribute present in the case."""
+    has_refg = any(a[0] == "refg" for u in case["units"] for n in walk_nodes(u) for a in n["attrs"])
+    for k in ck._known:
+        if k.get("status") == "known" and k.get("site", {}).get("attr_kind") == "refg" and has_refg \
+                and all("TypeError" in b or "no cycle" in b for b in bad):
+            return k["key"]
+    return None
 
 
 def _oracle_fails(case: dict) -> bool:
@@ -712,7 +730,12 @@ def run(ck) -> None:
             ck.broken(f"known-finding-stale:{k['key']}", "the recorded witness no longer fails")
     reported = set()
     for case, bad in failures:
-        sig = bad[0].split(":")[-1].strip()[:40]
+        key = is_known(ck, case, bad)
+        if key:
+            ck.known_finding(key, next(k["what"] for k in ck._known if k["key"] == key))
+            continue
+        import re
+        sig = re.sub(r"[\d\[\], >-]+", "#", bad[0])[:60]
         if sig in reported:
             continue
         reported.add(sig)
